@@ -14,6 +14,7 @@
   The interleaving-equals-solo statement over whole scripts is carried by the differential run (partial).
 -/
 import AioftpModel.Model.Counters
+import AioftpModel.Generated.PathIO
 import AioftpModel.Lemmas.ClientTreeFs
 
 namespace C17
@@ -157,5 +158,10 @@ example :
     let s2 := sysStep cfg s1 (.line 0 "CWD pa".toList [])
     s2.sessions[1]? = s1.sessions[1]? ∧ (s2.sessions[0]?.map (·.cwd)) = some ⟨1, ["pa".toList]⟩ := by
   decide
+
+/-- **fact_one_backend_instance_per_session**: as regenerated from `pathio.py`, `PathIONursery.__call__` builds a new backend
+    instance on every call - the dispatcher calls it once per accepted connection - and shares only `state` between them:
+    what a backend keeps on itself (its `connection`, bookkeeping of its own) is one session's -/
+theorem fact_one_backend_instance_per_session : Generated.PathIO.nurseryInstancePerCall = true := by decide
 
 end C17
